@@ -38,25 +38,47 @@ import impl
 import c07_gen as gen
 from common import cfloat, cz, cnat, clist, cpair
 
-THEOREMS = ['C07_plane_intersection_on_both', 'C07_plane_intersection_direction',
-            'C07_project_on_plane', 'C07_axial_vector',
-            'C07_hex_translation', 'C07_side_constant_along_line',
-            'C07_adjacent_at_vertex', 'C07_admissible_listings',
-            'C07_sort_and_vertices_all_orders',
-            'C07_walk_never_hangs_on_hexagons',
-            'C07_hex_base_vectors_partial', 'C07_proj_par_meaning',
-            'C07_hex_adjacency_geometry', 'C07_hex_base_vectors',
-            'C07_base_vector_carries_opposite_plane',
-            'C07_regular_hexagon_in_family', 'C07_domain_check_spec',
-            'C07_domain_check_error', 'C07_lattice_vector',
-            'C07_rhp_cell_hypotheses', 'C07_rhp15_lattice_vectors',
-            'C07_rhp9_lattice_vectors', 'C07_hex_lattice_developed',
-            'C07_base_vectors_wrong_count', 'C07_intersection_error_iff',
-            'C07_sort_sides_outcomes', 'C07_base_vectors_parallel_planes',
-            'C07_collinear_sides_parallel', 'C07_walk_ends_iff_closed_tour',
-            'C07_sort_count_error', 'C07_rhp_is_C03_rhp_linked',
-            'C07_develop_lattice_hex_is_tied', 'C07_caps_parallel_to_axis',
-            'C07_flipped_sense_lattice_error']
+# every theorem of coq/Properties/C07.v is a member of exactly one family; the
+# families are the conjunctions of the member theorems themselves, so one
+# Print Assumptions per family audits all of them
+THEOREMS = ['C07_family_algebra', 'C07_family_combinatorics', 'C07_family_base_vectors', 'C07_family_errors', 'C07_family_linked']
+MEMBERS = ['C07_plane_intersection_on_both',
+           'C07_plane_intersection_direction',
+           'C07_project_on_plane',
+           'C07_axial_vector',
+           'C07_hex_translation',
+           'C07_proj_par_meaning',
+           'C07_side_constant_along_line',
+           'C07_adjacent_at_vertex',
+           'C07_lattice_vector',
+           'C07_admissible_listings',
+           'C07_sort_and_vertices_all_orders',
+           'C07_walk_never_hangs_on_hexagons',
+           'C07_walk_ends_iff_closed_tour',
+           'C07_sort_count_error',
+           'C07_domain_check_spec',
+           'C07_domain_check_error',
+           'C07_hex_base_vectors_partial',
+           'C07_hex_adjacency_geometry',
+           'C07_hex_base_vectors',
+           'C07_base_vector_carries_opposite_plane',
+           'C07_regular_hexagon_in_family',
+           'C07_rhp_cell_hypotheses',
+           'C07_rhp15_lattice_vectors',
+           'C07_rhp9_lattice_vectors',
+           'C07_base_vectors_wrong_count',
+           'C07_intersection_error_iff',
+           'C07_sort_sides_outcomes',
+           'C07_base_vectors_parallel_planes',
+           'C07_collinear_sides_parallel',
+           'C07_caps_parallel_to_axis',
+           'C07_flipped_sense_lattice_error',
+           'C07_flipped_set_lattice_error',
+           'C07_base_vectors_outcomes',
+           'C07_hex_lattice_developed',
+           'C07_develop_lattice_hex_is_tied',
+           'C07_rhp_is_C03_rhp_linked',
+           'C07_hex_base_vectors_trcl_linked']
 TRUSTED = [
     'hand-written model coq/C07/Model.v (modelled, tied by execution only)',
     'binary64 evaluation: the theorems are over R; the model is run at '
@@ -801,6 +823,40 @@ def _run(res, tier, seed, proofs_ok):
                       f'{conv.exc}: {conv.msg[:120]}',
                       {'input': {'deck': WITNESS_TRIVIAL_RANGE}},
                       found_input=True)
+    # the concrete prism of the Coq example C07_example_base_vectors, on the
+    # implementation (the non-vacuity example and the code agree)
+    ex_surfs = [(((2.0, 0.0, 0.0), (1.0, -1.0, 0.0)), -1),
+                (((-2.0, 0.0, 5.0), (1.0, -1.0, 0.0)), 1),
+                (((1.0, 1.0, 0.0), (2.0, 2.0, 0.0)), -1),
+                (((-1.0, -1.0, 0.0), (-1.0, -1.0, 0.0)), -1),
+                (((0.0, 1.0, -2.0), (0.0, -1.0, 0.0)), 1),
+                (((1.0, -1.0, 0.0), (0.0, -1.0, 0.0)), -1),
+                (((0.0, 0.0, 3.0), (0.0, 0.0, 1.0)), -1),
+                (((7.0, 0.0, -1.0), (0.0, 0.0, 2.0)), 1)]
+    got = guarded(LT.hexLatticeBaseVectors, ex_surfs)
+    want = [(3.0, -1.0, 0.0), (3.0, 1.0, 0.0), (0.0, 0.0, 4.0)]
+    ok_ex = got[0] == 'ok' and len(got[1]) == 3 and all(
+        abs(a - b) < 1e-12 for v, w in zip(got[1], want) for a, b in zip(v, w))
+    res.obligation('corpus: the prism of the Coq example C07_example_base_vectors '
+                   'gives (3,-1,0) (3,1,0) (0,0,4) on the implementation', ok_ex,
+                   repr(got)[:200])
+    if not ok_ex:
+        res.violation('impl-violation',
+                      'hexLatticeBaseVectors on the prism of the Coq example: '
+                      f'{got!r}', {'input': {'surfaces': ex_surfs},
+                                   'expected': want}, found_input=True)
+    # the open chain of C07_open_chain_never_ends: the loop must not end (M5)
+    chain = {(0, 2), (0, 4), (1, 3), (1, 5), (2, 4), (3, 5)}
+    wout = walk_on_fake_adjacency(LT, chain, 0)
+    res.obligation('corpus: two triangles instead of a tour: the loop of '
+                   'hexVertices does not end (model: ELoop)',
+                   wout == ('err', 'ELoop'), repr(wout))
+    if wout != ('err', 'ELoop'):
+        res.violation('correspondence', 'hexVertices on the two-triangle '
+                      f'dictionary: {wout!r}, the model says ELoop',
+                      {'input': {'pairs': sorted(chain), 'first': 0},
+                       'theorem_or_correspondence': 'tie:walk'},
+                      found_input=False)
     _stage('witnesses')
     # ---------------- function-level streams ----------------
     stream = []          # (surfaces, hexa or None, listing or None, fault)
@@ -933,6 +989,36 @@ def _run(res, tier, seed, proofs_ok):
                                                 cvec(drc), cres(pout, cvec)))
                         proj_meta.append((pt, top, drc))
     _stage('function-level stream (implementation + oracle)')
+    # C07_flipped_set_lattice_error on the implementation: k flipped senses
+    # leave 6 - k intersections
+    import re as _re
+    flip_bad = 0
+    for _ in range(60 if quick else 600):
+        hexa = gen.gen_hexagon(rng)
+        surfs = gen.surfaces_of(hexa, gen.gen_listing(rng), rng)
+        flips = [k for k in range(6) if rng.random() < 0.4] or [rng.randrange(6)]
+        for k in flips:
+            surfs[k] = (surfs[k][0], -surfs[k][1])
+        try:
+            LT.hexSortSides(surfs[:6])
+            got = 'accepted'
+        except LT.LatticeError as exc:
+            m = _re.search(r'not enough intersections \((\d+)\)', str(exc))
+            got = int(m.group(1)) if m else str(exc)[:60]
+        except Exception as exc:       # pylint: disable=broad-except
+            got = type(exc).__name__
+        res.count(f'flipped senses: {len(flips)}')
+        if got != 6 - len(flips):
+            flip_bad += 1
+            res.violation('correspondence',
+                          f'{len(flips)} flipped senses: hexSortSides -> {got}, '
+                          f'the theorem gives {6 - len(flips)} intersections',
+                          {'input': {'surfaces': surfs, 'flips': flips},
+                           'theorem_or_correspondence':
+                           'C07_flipped_set_lattice_error'}, found_input=False)
+    res.obligation('sweep: k flipped senses leave 6 - k intersections '
+                   '(C07_flipped_set_lattice_error on the implementation)',
+                   flip_bad == 0, f'{flip_bad} disagreements')
     # degenerate numeric cases
     for _ in range(40):
         nrm = tuple(float(rng.choice([-1, 0, 1, 2])) for _ in range(3))
